@@ -1285,6 +1285,91 @@ GEN(int) @G(n int) {
 	RETURN
 }`, Drives: []Drive{gen("int", "@G", "0"), gen("int", "@G", "2")}},
 
+	{Name: "TypeSwitchBranches", Props: []string{"C01", "C12", "C11"}, Src: `
+// break / continue inside the clauses of a TYPE switch with yields: break leaves the switch only, continue goes
+// to the enclosing loop; with and without a loop, nested in an expression switch, with an init statement
+GEN(int) @InLoop(xs []any) {
+	for i := 0; i < len(xs); i++ {
+		switch v := xs[i].(type) {
+		case int:
+			if v < 0 { break }
+			YIELD(v)
+		case string:
+			if v == "" { continue }
+			YIELD(len(v))
+		case nil:
+			break
+		}
+		YIELD(-1)
+	}
+	YIELD(-2)
+	RETURN
+}
+GEN(int) @NoLoop(x any) {
+	YIELD(0)
+	switch v := x.(type) {
+	case int:
+		if v < 0 { break }
+		YIELD(v)
+	default:
+		YIELD(7)
+	}
+	YIELD(-2)
+	RETURN
+}
+GEN(int) @Nested(xs []any, mode int) {
+	for _, x := range xs {
+		switch mode {
+		case 1:
+			switch w := x; v := w.(type) {
+			case int:
+				if v > 5 { break } // (a break AFTER a yield in a yielding clause is finding D7)
+				YIELD(v)
+				YIELD(v + 100)
+			case bool:
+				if v { continue }
+				YIELD(1)
+			}
+			YIELD(-1)
+		default:
+			switch x.(type) {
+			case int:
+				break
+			}
+			YIELD(-3)
+		}
+	}
+	YIELD(-2)
+	RETURN
+}`, Drives: []Drive{gen("int", "@InLoop", `[]any{1, -5, "ab", "", nil, 7}`), gen("int", "@InLoop", `[]any{-1}`), gen("int", "@NoLoop", "-1"), gen("int", "@NoLoop", "3"), gen("int", "@NoLoop", `"s"`),
+		gen("int", "@Nested", `[]any{1, 9, true, false}, 1`), gen("int", "@Nested", `[]any{1, "x"}, 2`)}},
+
+	{Name: "RangeLoopVariablesAssigned", Props: []string{"C03", "C04", "C01"}, Src: `
+// the body may assign to the iteration variables: they are copies, the iteration goes on from the hidden state;
+// closures created in the body see the variable of THEIR iteration (a range clause with := declares fresh
+// variables per iteration in every Go version)
+GEN(int) @Ints(n int) {
+	for i := range n { i *= 2; YIELD(i) }
+	var fs []func() int
+	for i := range n { fs = append(fs, func() int { return i }); YIELD(i); i += 10 }
+	for _, f := range fs { YIELD(f()) }
+	RETURN
+}
+GEN(int) @Slices(xs []int) {
+	for i, v := range xs { i += 100; v *= 2; YIELD(i + v) }
+	var fs []func() int
+	for i, v := range xs { fs = append(fs, func() int { return 10*i + v }); YIELD(v); v = -1; i = -1 }
+	for _, f := range fs { YIELD(f()) }
+	RETURN
+}
+GEN(int) @Strings(s string) {
+	for i, r := range s { i *= 3; r++; YIELD(i + int(r)) }
+	var fs []func() int
+	for i := range s { fs = append(fs, func() int { return i }); YIELD(i); i = 99 }
+	for _, f := range fs { YIELD(f()) }
+	RETURN
+}`, Drives: []Drive{gen("int", "@Ints", "6"), gen("int", "@Ints", "0"), gen("int", "@Slices", "[]int{5, 6, 7}"), gen("int", "@Strings", `"aé!"`)}},
+
 	{Name: "TypeSwitchScopes", Props: []string{"C03", "C01"}, Src: `
 GEN(int) @G(vs []any) {
 	for _, v := range vs {
